@@ -117,13 +117,12 @@ PROPS["C01"] = {
     "binary": "c01_codec",
     "seeds": True,
     "level": "exploration",
-    "technique": "property-based testing (rapidcheck): object-first round trip with getter comparison and structure lock against a benign twin; document-first round trip and value-substitution (metamorphic) over all registered codecs",
-    "level_text": ("Generated objects (QXmppMessage with any subset of 34 extensions, hard string values) are serialised, re-parsed and compared getter by getter; the element skeleton must not depend on the string values; "
-                   "every document harvested from the repository's tests is put through every registered codec (148 classes) that admits it: the library's own output form must survive another parse/serialise pass up to sibling order, "
-                   "and substituting hard values at value-transparent positions must commute with the codec (correct escaping, same skeleton). Sampling, not proof."),
-    "level_note": "Trusted: the field tables/generators in harness/common/msggen.h (written from the public headers), Qt's XML parsers, the codec registry. Strings are non-blank in the Unicode sense (QChar::isSpace), a literal CR is not generated in text content (XML end-of-line normalisation), U+0000 and other XML-illegal code points never.",
-    "rule": ("c01.message: choice tape -> message (extension subset shape x values from G-str: markup metacharacters, quotes, Latin-1/Greek/CJK/combining/RTL/private-use/astral, attribute values also with TAB/LF/CR); non-trivial = >=1 extension present and >=1 value outside [A-Za-z0-9]; distinct = (presence mask, value classes). "
-             "c01.documents: (seed document or descendant, codec, position, value); non-trivial = value-transparent position exercised with a metacharacter or non-ASCII value; distinct = (document, codec, position, value class)."),
+    "technique": "property-based testing (rapidcheck): object-first round trip (generated object -> XML -> fresh object) with getter-by-getter comparison, re-serialisation comparison and structure lock against a benign twin built from the same choice tape",
+    "level_text": ("Generated objects are serialised, re-parsed by the class's own parser into a fresh object and compared getter by getter; the re-parsed object must serialise to the same XML (up to sibling order); the output must be well-formed and its element skeleton must not depend on the string values (a twin built from the same tape with every free-text value replaced by a short marker has the same skeleton). "
+                   "c01.message: QXmppMessage with any subset of its 34 extensions. c01.objects: the classes of the object-first tables in harness/common/objgen_*.h (evidence lists them under labels class:<name>), every optional field present/absent by a tape choice, integers at their type bounds, date-times with and without milliseconds. Sampling, not proof."),
+    "level_note": "Trusted: the field tables/generators in harness/common/msggen.h and objgen_*.h (written from the headers and the codecs' documented domains), Qt's XML parsers. Strings are non-blank at their edges in the Unicode sense (QChar::isSpace), a literal CR is not generated in text content (XML end-of-line normalisation), U+0000 and other XML-illegal code points never. Classes without a table are not covered by C01 (C02 still runs every registered codec on the repository's documents).",
+    "rule": ("choice tape -> object (presence choices x values from G-str: markup metacharacters, quotes, Latin-1/Greek/CJK/combining/RTL/private-use/astral, attribute values also with TAB/LF/CR; typed values at bounds); c01.message: non-trivial = >=1 extension present and >=1 value outside [A-Za-z0-9]; distinct = (presence mask, value classes). "
+             "c01.objects: non-trivial = the object serialises to something; distinct = (class, getter dump)."),
     "assumptions": [
         "fields documented as not serialised in the default mode (e2eeFallbackBody, E2EE metadata) are excluded",
         "XHTML-IM body is generated as well-formed XHTML only (documented raw write) and is exempt from hard values",
@@ -131,6 +130,7 @@ PROPS["C01"] = {
     ],
     "subs": [
         {"name": "c01.message", "engine": "rapid", "quick": R(6, 12000), "thorough": R(16, 1500000)},
+        {"name": "c01.objects", "engine": "rapid", "quick": R(6, 20000), "thorough": R(16, 1500000)},
     ],
 }
 
@@ -347,3 +347,9 @@ PROPS["C10"] = {
         {"name": "c10.loss", "engine": "rapid", "quick": R(12, 200), "thorough": R(16, 4000)},
     ],
 }
+
+# C15 (ICE) and C16 (server) were built as separate modules
+from props_c15 import PROPS_C15  # noqa: E402
+PROPS["C15"] = PROPS_C15
+from props_c16 import PROPS_C16  # noqa: E402
+PROPS["C16"] = PROPS_C16
